@@ -8,7 +8,8 @@ import "strings"
 var extraClauses = map[string][]string{
 	"C01": {"enable-agreement: Encoder.SetCompression and Decoder.SetCompressionThreshold both enable compression exactly for threshold >= 0", "lock-released: every function of the codec package that takes a mutex releases it on all exits (MAY-held-at-exit analysis with deferred unlocks)"},
 	"C02": {"full-reader (shared with C01/C15): every store to Decoder.rd wraps the reader in fullReader", "inflate-status: the success return of decompress carries the zlib reader's terminal status (Close() result or the probe's error), so a corrupt/truncated trailer is rejected"},
-	"C03": {"read-error-consumed: the error result of every stream read in proto/util reaches a test, a return or a store (no discarded or shadowed error)"},
+	"C03": {"read-error-consumed: the error result of every stream read in proto/util reaches a test, a return or a store (no discarded or shadowed error)",
+		"forge-short-layout (P6b bit-slice provenance): ReadExtendedForgeShort returns value bits 0..14 from the short's low 15 bits and bits 15..22 from the continuation byte, the 0x8000 marker never reaching the value, and WriteExtendedForgeShort places them the same way"},
 	"C04": {"forge-short-layout (P6b bit-slice provenance): Read/WriteExtendedForgeShort place every value bit where the other side takes it from, the flag bit is set exactly when the third byte follows"},
 	"C05": {"recover-converts-errors: every re-panic in util.Recover lies behind the failed r.(error) assertion (runtime errors are converted, not re-thrown)", "bailout-alive: no loop on a decode path exits on a progress flag that is carried across iterations and only ever set to true (the one structural hang pattern decided; termination in general is not)"},
 	"C06": {"reference-ids: every (state, direction, type, protocol) cell of /verif/reference/packet_ids.json keeps its id (ids of released protocol versions are immutable)"},
